@@ -740,6 +740,84 @@ fn h_loader(op: &str, a: &[&str]) -> Option<String> {
             let bad = if *exp != "-" && *exp != s { Some(format!("dwp-unit-differs standalone={exp}")) } else { None };
             Some(with_oracle(format!("ok {s}"), bad))
         }
+        ("attr", [e, f, asz, sob, ab, st, lst, so, ad, sup, kind, val, exp]) => {
+            let e = endian(e)?;
+            let f64_ = match *f {
+                "32" => false,
+                "64" => true,
+                _ => return None,
+            };
+            let asz: u8 = asz.parse().ok()?;
+            let sob: u64 = sob.parse().ok()?;
+            let ab: u64 = ab.parse().ok()?;
+            let (st, lst, so, ad) = (unhex(st)?, unhex(lst)?, unhex(so)?, unhex(ad)?);
+            let supb = if *sup == "~" { None } else { Some(unhex(sup)?) };
+            // a minimal DWARF 5 compile unit whose root DIE carries the two bases
+            let big = e == RunTimeEndian::Big;
+            let abbrev: Vec<u8> = vec![1, 0x11, 0, 0x72, 0x17, 0x73, 0x17, 0, 0, 0];
+            let mut body = W::new(big);
+            body.u16(5);
+            body.u8(1);
+            body.u8(asz);
+            body.word(0, f64_);
+            body.u8(1);
+            body.word(sob, f64_);
+            body.word(ab, f64_);
+            let mut info = W::new(big);
+            info.initial_length(body.b.len() as u64, f64_);
+            info.bytes(&body.b);
+            let mut dwarf: gimli::Dwarf<Sl<'_>> = gimli::Dwarf::default();
+            dwarf.debug_info = gimli::DebugInfo::new(&info.b, e);
+            dwarf.debug_abbrev = gimli::DebugAbbrev::new(&abbrev, e);
+            dwarf.debug_str = gimli::DebugStr::new(&st, e);
+            dwarf.debug_line_str = gimli::DebugLineStr::new(&lst, e);
+            dwarf.debug_str_offsets = gimli::DebugStrOffsets::from(EndianSlice::new(&so[..], e));
+            dwarf.debug_addr = gimli::DebugAddr::from(EndianSlice::new(&ad[..], e));
+            if let Some(sb) = &supb {
+                let mut sd: gimli::Dwarf<Sl<'_>> = gimli::Dwarf::default();
+                sd.debug_str = gimli::DebugStr::new(sb, e);
+                dwarf.set_sup(sd);
+            }
+            let hd = match dwarf.units().next() {
+                Ok(Some(h)) => h,
+                _ => return Some("panic harness: unit header".into()),
+            };
+            let unit = match dwarf.unit(hd) {
+                Ok(u) => u,
+                Err(_) => return Some("panic harness: unit".into()),
+            };
+            if unit.str_offsets_base.0 as u64 != sob || unit.addr_base.0 as u64 != ab {
+                return Some("panic harness: bases".into());
+            }
+            let inline;
+            let av: gimli::AttributeValue<Sl<'_>> = match *kind {
+                "string" => {
+                    inline = unhex(val)?;
+                    gimli::AttributeValue::String(EndianSlice::new(&inline, e))
+                }
+                "strp" => gimli::AttributeValue::DebugStrRef(gimli::DebugStrOffset(val.parse().ok()?)),
+                "strpsup" => gimli::AttributeValue::DebugStrRefSup(gimli::DebugStrOffset(val.parse().ok()?)),
+                "linestrp" => gimli::AttributeValue::DebugLineStrRef(gimli::DebugLineStrOffset(val.parse().ok()?)),
+                "strx" => gimli::AttributeValue::DebugStrOffsetsIndex(gimli::DebugStrOffsetsIndex(val.parse().ok()?)),
+                "addr" => gimli::AttributeValue::Addr(val.parse().ok()?),
+                "addrx" => gimli::AttributeValue::DebugAddrIndex(gimli::DebugAddrIndex(val.parse().ok()?)),
+                "udata" => gimli::AttributeValue::Udata(val.parse().ok()?),
+                "flag" => gimli::AttributeValue::Flag(*val != "0"),
+                _ => return None,
+            };
+            let sres = res_s(dwarf.attr_string(&unit, av.clone()), |r| hex(r.slice()));
+            let ares = res_s(dwarf.attr_address(&unit, av.clone()), |r| r.map(|x| x.to_string()).unwrap_or("~".into()));
+            // the `UnitRef` wrappers must dispatch identically
+            let ur = unit.unit_ref(&dwarf);
+            let sres2 = res_s(ur.attr_string(av.clone()), |r| hex(r.slice()));
+            let ares2 = res_s(ur.attr_address(av), |r| r.map(|x| x.to_string()).unwrap_or("~".into()));
+            let out = format!("s={sres}|a={ares}");
+            let mut bad = if *exp != "-" && *exp != out { Some(format!("attr-differs table={exp}")) } else { None };
+            if (sres != sres2 || ares != ares2) && bad.is_none() {
+                bad = Some("unitref-differs".into());
+            }
+            Some(with_oracle(format!("ok {out}"), bad))
+        }
         ("stroff", [e, f, h, base, index, exp]) => {
             let e = endian(e)?;
             let f = match *f {
@@ -2309,6 +2387,99 @@ fn gen_indexed(ctx: &Ctx, emit: &mut dyn FnMut(String)) {
     }
 }
 
+
+fn gen_attr(ctx: &Ctx, emit: &mut dyn FnMut(String)) {
+    let mut rng = ctx.rng(1707);
+    let n = ctx.n(120, 2500);
+    for _ in 0..n {
+        let big = rng.chance(1, 2);
+        let f64_ = rng.chance(1, 2);
+        let asz = *rng.pick(&[1u8, 2, 4, 8]);
+        // string sections: a few NUL terminated strings each
+        let mk_strs = |rng: &mut Rng, tag: u8| -> (Vec<u8>, Vec<(u64, Vec<u8>)>) {
+            let mut sec = Vec::new();
+            let mut at = Vec::new();
+            for i in 0..rng.range(1, 4) {
+                let s: Vec<u8> = (0..rng.below(5)).map(|j| tag + (i * 5 + j) as u8 % 20).collect();
+                at.push((sec.len() as u64, s.clone()));
+                sec.extend_from_slice(&s);
+                sec.push(0);
+            }
+            (sec, at)
+        };
+        let (st, st_at) = mk_strs(&mut rng, b'a');
+        let (lst, lst_at) = mk_strs(&mut rng, b'A');
+        let (sup, sup_at) = mk_strs(&mut rng, b'0');
+        let has_sup = rng.chance(2, 3);
+        // .debug_str_offsets: header, then offsets of the strings of .debug_str (permuted)
+        let sob = rng.range(0, 12);
+        let mut so = W::new(big);
+        so.bytes(&rng.bytes(sob as usize));
+        let mut strx: Vec<(u64, Vec<u8>)> = Vec::new();
+        for i in 0..rng.range(1, 5) {
+            let (off, s) = rng.pick(&st_at).clone();
+            so.word(off, f64_);
+            strx.push((i, s));
+        }
+        // .debug_addr
+        let ab = rng.range(0, 12);
+        let mut ad = W::new(big);
+        ad.bytes(&rng.bytes(ab as usize));
+        let mut addrx: Vec<(u64, u64)> = Vec::new();
+        for i in 0..rng.range(1, 5) {
+            let v = rng.boundary_u64() & ar_mask(asz);
+            ad.uint(v, asz as usize);
+            addrx.push((i, v));
+        }
+        let pre = format!(
+            "attr {} {} {} {} {} {} {} {} {} {}",
+            es(big),
+            if f64_ { "64" } else { "32" },
+            asz,
+            sob,
+            ab,
+            hex(&st),
+            hex(&lst),
+            hex(&so.b),
+            hex(&ad.b),
+            if has_sup { hex(&sup) } else { "~".into() }
+        );
+        let inl = rng.bytes_below(5);
+        emit(format!("{pre} string {} s={}|a=~", hex(&inl), hex(&inl)));
+        for (off, s) in &st_at {
+            emit(format!("{pre} strp {off} s={}|a=~", hex(s)));
+        }
+        for (off, s) in &lst_at {
+            emit(format!("{pre} linestrp {off} s={}|a=~", hex(s)));
+        }
+        for (off, s) in &sup_at {
+            if has_sup {
+                emit(format!("{pre} strpsup {off} s={}|a=~", hex(s)));
+            } else {
+                emit(format!("{pre} strpsup {off} s=!ExpectedStringAttributeValue|a=~"));
+            }
+        }
+        for (i, s) in &strx {
+            emit(format!("{pre} strx {i} s={}|a=~", hex(s)));
+        }
+        for (i, v) in &addrx {
+            emit(format!("{pre} addrx {i} s=!ExpectedStringAttributeValue|a={v}"));
+        }
+        let a = rng.boundary_u64();
+        emit(format!("{pre} addr {a} s=!ExpectedStringAttributeValue|a={a}"));
+        emit(format!("{pre} udata {} s=!ExpectedStringAttributeValue|a=~", rng.boundary_u64()));
+        emit(format!("{pre} flag 1 s=!ExpectedStringAttributeValue|a=~"));
+        // out of range offsets / indexes: correspondence only
+        emit(format!("{pre} strp {} -", st.len() as u64 + rng.below(3)));
+        emit(format!("{pre} linestrp {} -", rng.boundary_u64()));
+        emit(format!("{pre} strpsup {} -", sup.len() as u64 + rng.below(2)));
+        emit(format!("{pre} strx {} -", strx.len() as u64 + rng.below(2)));
+        emit(format!("{pre} strx {} -", rng.boundary_u64()));
+        emit(format!("{pre} addrx {} -", addrx.len() as u64 + rng.below(2)));
+        emit(format!("{pre} addrx {} -", rng.boundary_u64()));
+    }
+}
+
 pub fn gen(ctx: &Ctx, emit: &mut dyn FnMut(String)) {
     gen_index(ctx, emit);
     gen_aranges(ctx, emit);
@@ -2316,6 +2487,7 @@ pub fn gen(ctx: &Ctx, emit: &mut dyn FnMut(String)) {
     gen_names(ctx, emit);
     gen_dwp(ctx, emit);
     gen_indexed(ctx, emit);
+    gen_attr(ctx, emit);
     emit("load-wiring".into());
 }
 
